@@ -6,8 +6,28 @@ def _c15_case(c):
     # (bin/check search step b); the direct cases can be rebuilt from their model line.
     import json as _json
     p = c.split(" ")
-    if p[0] == "C" and p[-1].startswith("J"):
+    if p[0] in ("C", "W") and p[-1].startswith("J"):
         return _json.loads(bytes.fromhex(p[-1][1:]).decode("utf-8"))
+    if p[0] == "S":
+        def unhex(h):  # values may be UTF-8
+            return "" if h == "-" else bytes.fromhex(h).decode("utf-8", "replace")
+
+        def _items(t):
+            return [] if t == "_" else [{"Name": unhex(a), "ArtifactType": unhex(b_)} for a, b_ in (x.split(":") for x in t.split(","))]
+
+        def _kvs(t):
+            out = []
+            for kv in ([] if t == "_" else t.split("&")):
+                k, v = kv.split("=", 1)
+                out.append({"K": unhex(k), "V": v[1:] if v[0] == "N" else unhex(v[1:])})
+            return out
+        return {"op": "regpage", "kind": p[1], "items": _items(p[2]), "cap": int(p[3]), "path": unhex(p[4]), "query": _kvs(p[5]),
+                "dec": {"M": int(p[6]), "Extra": _kvs(p[7]) or None, "Filter": p[8] == "1", "FHdr": unhex(p[9]), "FAnn": unhex(p[10])}}
+    if p[0] == "P":
+        ct = unhex(p[4])
+        return {"op": "ping", "state": p[1], "status": "0" if p[2] == "200" else p[2],
+                "code": "NAME_UNKNOWN" if p[3] == "1" else ("" if p[2] == "200" else "UNSUPPORTED"),
+                "ctype": "" if ct == "application/vnd.oci.image.index.v1+json" else ct}
     if p[0] == "L":
         return {"op": "link", "cmp": p[1], "header": unhex(p[2])}
     if p[0] == "F":
@@ -19,6 +39,240 @@ def _c15_case(c):
     return {"raw": c}
 
 
+# ---------------------------------------------------------------------------
+# Thorough tier: a sample of the correspondence cases is re-evaluated INSIDE Coq with
+# vm_compute and compared with what the extracted OCaml runner printed (model.txt).
+# This cross-checks the extraction and the OCaml driver, not the implementation.
+
+def _vm_str(h):
+    if h == "-":
+        return "(@nil N)"
+    bs = bytes.fromhex(h)
+    return "[" + "; ".join(str(x) for x in bs) + "]"
+
+
+def _vm_list(xs, ty):
+    return "(@nil %s)" % ty if not xs else "[" + "; ".join(xs) + "]"
+
+
+def _vm_items(tok):
+    if tok == "_":
+        return "(@nil item)"
+    out = []
+    for it in tok.split(","):
+        a, b_ = it.split(":")
+        out.append("(%s, %s)" % (_vm_str(a), _vm_str(b_)))
+    return _vm_list(out, "item")
+
+
+def _vm_query(tok):
+    if tok == "_":
+        return "(@nil (str * qval))"
+    out = []
+    for kv in tok.split("&"):
+        k, v = kv.split("=", 1)
+        out.append("(%s, %s)" % (_vm_str(k), "VN %s" % v[1:] if v[0] == "N" else "VS %s" % _vm_str(v[1:])))
+    return _vm_list(out, "(str * qval)")
+
+
+def _vm_expq(tok):
+    """expected (printed) query: list of (key, value bytes, value as number if decimal)"""
+    if tok == "_":
+        return "(@nil (str * str * option N))"
+    out = []
+    for kv in tok.split("&"):
+        k, v = kv.split("=", 1)
+        raw = b"" if v == "-" else bytes.fromhex(v)
+        num = "None"
+        if raw.isdigit() and (raw == b"0" or not raw.startswith(b"0")) and len(raw) < 15:
+            num = "Some %s" % raw.decode()
+        out.append("(%s, %s, %s)" % (_vm_str(k), _vm_str(v), num))
+    return _vm_list(out, "(str * str * option N)")
+
+
+def _vm_z(t):
+    n = int(t)
+    return "(%d)%%Z" % n
+
+
+def _vm_bool(t):
+    return "true" if t == "1" else "false"
+
+
+def _vm_kind(t):
+    return {"T": "KTags", "K": "KCatalog", "R": "KReferrers"}[t]
+
+
+def _vm_pages(tok, k):
+    if k == 0:
+        return "(@nil (list item))"
+    return _vm_list([_vm_items(p) for p in tok.split(";")], "(list item)")
+
+
+def _vm_client(toks):
+    """Coq terms (cfg, loop application) of the client fields of a C/W line."""
+    kd, n, limit, at, last, cbf, path, q, nresp = toks[:9]
+    nr = int(nresp)
+    rest = toks[9:]
+    resps, table = [], []
+    for i in range(nr):
+        st, nu, ct, js, dl, tl, its, links, fh, fa, tt, tp, tq = rest[13 * i:13 * i + 13]
+        ls = _vm_list([] if links == "_" else [_vm_str(x) for x in links.split(",")], "str")
+        resps.append("(mkResp %s %s %s %s %s %s %s %s %s %s)" % (st, _vm_bool(nu), _vm_str(ct), _vm_bool(js), dl, tl,
+                                                                  _vm_items(its), ls, _vm_str(fh), _vm_str(fa)))
+        if tt != "!":
+            tgt = "None" if tp == "!" else "Some (mkUrl %s %s)" % (_vm_str(tp), _vm_query(tq))
+            table.append("(%s, %s)" % (_vm_str(tt), tgt))
+    cfg = "(mkCfg %s %s %s %s)" % (_vm_kind(kd), _vm_z(n), _vm_z(limit), _vm_str(at))
+    serve = "(fun (i : nat) (_ : url) => nth i %s vm_dead)" % _vm_list(resps, "response")
+    resolve = "(vm_resolve %s)" % _vm_list(table, "(str * option url)")
+    cb = "(fun k : nat => Nat.eqb k %d)" % int(cbf) if int(cbf) >= 0 else "(fun _ : nat => false)"
+    loop = "(loop %s %s %s %s %d 0 0 (mkUrl %s %s) %s)" % (serve, resolve, cb, cfg, nr + 2, _vm_str(path), _vm_query(q), _vm_str(last))
+    return cfg, loop, int(cbf)
+
+
+def _vm_reqs(tok):
+    """expected requests: (paths, queries)"""
+    if tok == "_":
+        return "(@nil str)", "(@nil (list (str * str * option N)))"
+    ps, qs = [], []
+    for r in tok.split("|"):
+        p_, q_ = r.split("?", 1)
+        ps.append(_vm_str(p_))
+        qs.append(_vm_expq(q_))
+    return _vm_list(ps, "str"), _vm_list(qs, "(list (str * str * option N))")
+
+
+_VM_PRELUDE = """From Oras Require Import Base.Prelude Generated.GC15 Model.Paging.
+Definition vm_dead : response := mkResp 599 false [] false 0 0 [] [] [] [].
+Definition vm_resolve (tbl : list (str * option url)) (_ : url) (t : str) : option url :=
+  match find (fun e => str_eqb (fst e) t) tbl with Some e => snd e | None => None end.
+Definition vm_vmatch (v : qval) (e : str * option N) : bool :=
+  match v with VS s => str_eqb s (fst e) | VN n => match snd e with Some m => n =? m | None => false end end.
+Definition vm_qsame (q : query) (e : list (str * str * option N)) : bool :=
+  Nat.eqb (length q) (length e) &&
+  forallb (fun x => existsb (fun kv => str_eqb (fst kv) (fst (fst x)) && vm_vmatch (snd kv) (snd (fst x), snd x)) q) e.
+Fixpoint vm_qsames (qs : list query) (es : list (list (str * str * option N))) : bool :=
+  match qs, es with
+  | [], [] => true
+  | q :: qs', e :: es' => vm_qsame q e && vm_qsames qs' es'
+  | _, _ => false
+  end.
+"""
+
+
+def _vm_goal(case, out):
+    """one Coq goal (string) for a case line and the runner's output, or None when not sampled"""
+    p = case.split(" ")
+    o = out.split(" ")
+    k = p[0]
+    if k == "C":
+        cfg, loop, _ = _vm_client(p[1:])
+        # R reqs P k pages O out
+        ps, qs = _vm_reqs(o[1])
+        return ("let t := %s in (map u_path (t_reqs t), t_pages t, t_out t, vm_qsames (map u_query (t_reqs t)) %s)\n  = (%s, %s, %s, true)"
+                % (loop, qs, ps, _vm_pages(o[4], int(o[3])), o[6]))
+    if k == "W":
+        st, cbu, found, size, tsitems = p[1:6]
+        cfg, loop, cbf = _vm_client(p[6:])
+        cbts = "(fun j : nat => Nat.eqb (k + j) %d)" % cbf if cbf >= 0 else "(fun _ : nat => false)"
+        ts = "(fun k : nat => tag_schema (c_limit %s) %s %s %s (c_at %s) %s)" % (cfg, _vm_bool(found), _vm_z(size), _vm_items(tsitems), cfg, cbts)
+        state = {"U": "RUnknown", "S": "RSupported", "N": "RUnsupported"}
+        ps, qs = _vm_reqs(o[1])
+        return ("let w := referrers_wrap %s %s %s %s in (map u_path (w_reqs w), w_pages w, w_out w, w_fell_back w, w_state w, vm_qsames (map u_query (w_reqs w)) %s)\n  = (%s, %s, %s, %s, %s, true)"
+                % (state[st], _vm_bool(cbu), loop, ts, qs, ps, _vm_pages(o[4], int(o[3])), o[6], _vm_bool(o[8]), state[o[10]]))
+    if k == "S":
+        kd, its, cap, path, q, m, extra, flt, fh, fa = p[1:11]
+        d = "(mkDec %s %s %s %s %s 0 0)" % (m, _vm_query(extra), _vm_bool(flt), _vm_str(fh), _vm_str(fa))
+        call = "(reg_page %s %s %s (mkUrl %s %s) %s)" % (_vm_kind(kd), _vm_items(its), cap, _vm_str(path), _vm_query(q), d)
+        more = o[1] == "1"
+        qchk = "vm_qsame (snd r) %s" % _vm_expq(o[2]) if more else "true"
+        return "let r := %s in (fst (fst r), snd (fst r), %s) = (%s, %s, true)" % (call, qchk, _vm_items(o[0]), _vm_bool(o[1]))
+    if k == "L":
+        h = _vm_str(p[2])
+        if o[0] == "T" and len(o) > 1:
+            return "parse_link %s = LTarget %s" % (h, _vm_str(o[1]))
+        if o[0] == "T":
+            return "(match parse_link %s with LTarget _ => true | _ => false end) = true" % h
+        return "parse_link %s = %s" % (h, {"NONE": "LNone", "ERRLT": "LErrLt", "ERRGT": "LErrGt"}[o[0]])
+    if k == "F":
+        return "is_filter_applied %s %s = %s" % (_vm_str(p[1]), _vm_str(p[2]), _vm_bool(o[0]))
+    if k == "FR":
+        return "filter_referrers %s %s = %s" % (_vm_items(p[1]), _vm_str(p[2]), _vm_items(o[0]))
+    if k == "Z":
+        return "limit_size_rejects %s %s = %s" % (_vm_z(p[1]), _vm_z(p[2]), _vm_bool(o[0]))
+    if k == "O":
+        ents = "(@nil (str * str))" if p[1] == "_" else _vm_list(
+            ["(%s, %s)" % tuple(_vm_str(x) for x in e.split(":")) for e in p[1].split(",")], "(str * str)")
+        exp = _vm_list([] if o[0] == "_" else [_vm_str(x) for x in o[0].split(",")], "str")
+        return "list_tags %s %s = %s" % (ents, _vm_str(p[2]), exp)
+    if k == "P":
+        state = {"U": "RUnknown", "S": "RSupported", "N": "RUnsupported"}
+        rs = "(mkResp %s %s %s true 0 0 [] [] [] [])" % (p[2], _vm_bool(p[3]), _vm_str(p[4]))
+        ans = {"1": "Some true", "0": "Some false", "E": "None"}[o[0]]
+        return "ping %s %s = (%s, %s)" % (state[p[1]], rs, state[o[1]], ans)
+    if k == "X":
+        limit, found, size, its, at, cbf = p[1:7]
+        cb = "(fun k : nat => Nat.eqb k %d)" % int(cbf) if int(cbf) >= 0 else "(fun _ : nat => false)"
+        return "tag_schema %s %s %s %s %s %s = (%s, %s)" % (_vm_z(limit), _vm_bool(found), _vm_z(size), _vm_items(its), _vm_str(at), cb,
+                                                          _vm_pages(o[2], int(o[1])), o[4])
+    return None
+
+
+def _c15_vm_sample(d, tier, coq, build, want=300):
+    import os, subprocess, collections
+    if tier != "thorough":
+        return []
+    outs = {}
+    with open(os.path.join(d, "model.txt")) as f:
+        for l in f:
+            i, _, o = l.rstrip("\n").partition(" ")
+            outs[i] = o
+    # a spread over the case kinds, small cases preferred (the term is type-checked too)
+    quota = {"C": 105, "W": 75, "S": 50, "L": 15, "F": 8, "FR": 8, "Z": 6, "O": 12, "X": 11, "P": 10}
+    got = collections.Counter()
+    stride = collections.Counter()
+    total = collections.Counter()
+    goals = []
+    with open(os.path.join(d, "cases.txt")) as f:
+        for l in f:
+            c = l.split(" ", 2)
+            if len(c) > 1 and len(l) <= 6000:
+                total[c[1]] += 1
+    with open(os.path.join(d, "cases.txt")) as f:
+        for l in f:
+            i, _, c = l.rstrip("\n").partition(" ")
+            k = c.split(" ", 1)[0]
+            if k not in quota or got[k] >= quota[k] or len(l) > 6000 or i not in outs:
+                continue
+            stride[k] += 1
+            if (stride[k] - 1) % max(1, total[k] // quota[k]) != 0:
+                continue
+            if c.split(" ")[-1].startswith("J"):
+                c = c[:c.rindex(" ")]
+            g = _vm_goal(c, outs[i])
+            if g:
+                got[k] += 1
+                goals.append((i, g))
+    vdir = os.path.join(build, "vm")
+    os.makedirs(vdir, exist_ok=True)
+    vf = os.path.join(vdir, "C15_cases.v")
+    with open(vf, "w") as f:
+        f.write(_VM_PRELUDE)
+        for i, g in goals:
+            f.write("\n(* %s *)\nGoal %s.\nProof. vm_compute. reflexivity. Qed.\n" % (i, g))
+    p = subprocess.run(["coqc", "-R", coq, "Oras", "-w", "-notation-overridden", vf], cwd=vdir, timeout=1500,
+                       stdout=subprocess.PIPE, stderr=subprocess.STDOUT, text=True)
+    with open(os.path.join(d, "vm_sample.txt"), "w") as f:
+        f.write("%d goals %s rc=%d\n%s" % (len(goals), dict(got), p.returncode, p.stdout[-3000:]))
+    if p.returncode != 0:
+        return ["vm_compute re-evaluation of %d sampled cases inside Coq disagrees with the extracted runner (or does not type-check): %s"
+                % (len(goals), p.stdout[-1200:])]
+    if len(goals) < want // 2:
+        return ["vm_compute sample too small: %d goals" % len(goals)]
+    return []
+
+
 CONFIG = {
     "properties_file": "Properties/C15.v",
     "proof_files": ["Base/Prelude.v", "Proofs/Paging.v"],
@@ -27,6 +281,7 @@ CONFIG = {
     "ml_main": "c15_main.ml",
     "harness": "c15",
     "case_to_replay": _c15_case,
+    "post_model": _c15_vm_sample,
     "timeout_search": 1500,
     "assumptions": [
         "net/url (URL.Parse reference resolution, URL.String, Query/Encode escaping) is abstract: the theorems quantify over any Link rendering `render` and resolver `resolve` such that resolving the registry's link text against the request URL yields the intended target (same path; query = cursor `last`, the registry's extra parameters, the request's other parameters); the harness checks this on every followed link for absolute, absolute-path, path-relative, query-only and scheme-relative forms with escaped values",
@@ -34,11 +289,13 @@ CONFIG = {
         "queries are association lists key -> value (n numeric); url.Values.Set = replace; the order of different keys is not modelled (compared key-sorted)",
         "the registry model's meaning of `last`: items after the entry named last; an unknown name is placed before the first greater item (= all greater items on a sorted registry, C15_last_on_sorted_registry); item names are non-empty and distinct",
         "a legal registry: page length in [1, min(cap, n)] chosen freely per request, Link iff items remain, link cursor = last item of the unfiltered page, link does not change artifactType, it filters whenever it announces filtering (header or annotation, comma separated list)",
-        "http transport, auth client, context cancellation and the Referrers capability state machine are outside the model (the harness fixes the capability: supported for the API path, unsupported for the tag-schema path); the tag-schema path is modelled at the level (tag found?, index size, listed referrers): limitSize + filterReferrers (C15_tag_schema), manifest fetch / digest verification are C13/C05 matters",
+        "http transport, auth client and context cancellation are outside the model; Repository.Referrers' capability detection (unknown/supported/unsupported, fallback to the tag schema, state set once) is modelled (referrers_wrap, C15_referrers_capability) on top of the API loop and the tag-schema path; the tag-schema path is modelled at the level (tag found?, index size, listed referrers): limitSize + filterReferrers (C15_tag_schema), manifest fetch / digest verification are C13/C05 matters; pingReferrers is modelled on one response (C15_ping_agrees)",
+        "Link: only the first header line and its first <...> are read (model = code); link-values/lines AFTER the next link are covered by the theorems (trailer) and generated; a link-value of another relation BEFORE the next link is the known finding link-rel-ignored (C15_link_rel_first_refuted), generated in a separate stream whose failures carry only that signature",
+        "Content-Type of a referrers response is compared verbatim with ocispec.MediaTypeImageIndex (hand-copied constant of the pinned image-spec dependency): parameters or another spelling count as 'no referrers API' (C15_content_type_exact) -- modelled as the code behaves, generated as a disturbance",
         "content/oci listTags is modelled on the resolver map as a list of (reference, digest of its descriptor) in any order; Go string order = byte-wise lexicographic order",
     ],
-    "level_text": "Coq theorems for all item lists, split oracles, caps, page sizes, values of last, Link renderings and filter announcements: Tags/Repositories/Referrers deliver exactly the registry's suffix after last (resp. the referrers of the requested artifact type), once, in order, within |suffix|+1 requests; a failing callback truncates the listing at that invocation with its error; pages come only from documents that fit MaxMetadataBytes (<= 0 = regenerated default), at most that many bytes pass the reader; the referrers tag-schema fallback rejects an index over the limit and otherwise delivers the filtered referrers in one non-empty page; content/oci listTags is the sorted set of non-digest references greater than last for every map order. Model tied to registry/remote and content/oci by a differential run against an in-process fake registry (PRNG split oracle, five Link forms, malformed stream) and an independent oracle",
-    "level_note": "net/url resolution and encoding/json are hypotheses of the theorems (checked by the harness on every followed link / around the limit); transport, auth, capability detection and manifest fetching of the tag-schema fallback are not modelled",
+    "level_text": "Coq theorems for all item lists, split oracles, caps, page sizes, values of last, Link renderings and filter announcements: Tags/Repositories/Referrers deliver exactly the registry's suffix after last (resp. the referrers of the requested artifact type), once, in order, within |suffix|+1 requests; a failing callback truncates the listing at that invocation with its error; pages come only from documents that fit MaxMetadataBytes (<= 0 = regenerated default), at most that many bytes pass the reader; Repository.Referrers takes its callback arguments from exactly one of the API and the tag schema, returns a callback error unchanged and sets the capability once (after fix a06e319); the referrers tag-schema fallback rejects an index over the limit and otherwise delivers the filtered referrers in one non-empty page; content/oci listTags is the sorted set of non-digest references greater than last for every map order. Model tied to registry/remote and content/oci by a differential run against an in-process fake registry (PRNG split oracle, five Link forms, malformed stream) and an independent oracle",
+    "level_note": "net/url resolution and encoding/json are hypotheses of the theorems (checked by the harness on every followed link / around the limit); transport, auth and manifest fetching of the tag-schema fallback are not modelled; Link relation types are ignored by the code (known finding link-rel-ignored)",
     "technique": "machine-checked proof in Coq (induction over the page loop against a nondeterministic registry; prefix/refinement for callback failure; sorting) + translator-regenerated constants + model/implementation correspondence against harness/fakereg",
     "explanation": "theorems over all lists/splits/links about the model of the page loops, parseLink, limitReader, filterReferrers and listTags; constants regenerated from registry/remote; model and real client run on the same fake-registry scripts (requests, callback arguments, outcome compared), the fake registry's pages compared with the registry model; independent exactly-once / stop-on-error / over-read / truncation / sortedness oracle",
 }
